@@ -157,3 +157,21 @@ def witness(a, b, var_ids, cache=None, tries=6, seed=12345):
         if evaluate(d, vals) != 0:
             return vals
     return None
+
+
+def close(a, b, tol, cache=None):
+    """
+    coefficient-wise agreement of the two normal forms within `tol` (relative to max(1, |coefficient|)): for code that carries
+    floating-point constants (e.g. a norm that is divided out again), where exact identity of rational coefficients is not to be had.
+    True / False / None (outside the fragment).
+    """
+    try:
+        d = _add(normal(a, cache), normal(b, cache), -1)
+        na = normal(a, cache)
+    except OutOfFragment:
+        return None
+    for m, c in d.items():
+        ref = max(1, abs(na.get(m, 0)))
+        if abs(c) > tol * ref:
+            return False
+    return True
